@@ -43,6 +43,7 @@ static int ph, step, in_pre, aborted, drain_cycles, closing;
 static unsigned char mq[1 << 16]; static int mq_head, mq_tail, m_dead;
 static long n_exec, n_sends, n_dropped_tails, n_devs, n_wraps, n_spurious_interest;
 static int run_devs, run_drops, run_wrap;
+static long run_sends, written_total;
 static int in_write, blocked_len_max;      /* during a write: largest ring fill seen at a send() that was answered would-block */
 static unsigned gctr;
 
@@ -108,7 +109,15 @@ static void check_state (const char *when) {
 static long send_hook (env_cli *c, const void *buf, size_t len) {
   n_sends++;
   (void) c;
-  if (aborted) return (long) len;
+  /* once an execution has failed it is ended at once: the socket is gone (also ends a flush loop that no longer terminates) */
+  if (aborted) return -EPIPE;
+  /* backstop against a send loop that never ends in the code under test: a correct driver needs at most one send() per pending
+   * byte plus one per refused attempt, and can never get more bytes accepted than were written */
+  run_sends++;
+  if (run_sends > written_total + 4 * SZ + 64) {
+    failx ("C14:runaway-send-loop", "%ld send() calls in one execution for %ld bytes written (ring %d): flush_message() does not terminate", run_sends, written_total, SZ);
+    return -EPIPE;
+  }
   if (m_dead) { failx ("C14:send-after-EPIPE", "send() of %zu bytes after the socket answered EPIPE", len); return -EPIPE; }
   int pend = mq_tail - mq_head;
   if (len == 0 || (int) len > pend || memcmp (buf, mq + mq_head, len)) {
@@ -165,6 +174,7 @@ static void issue_write (int len, int lf, int kind) {
   int elen; build_msg (len, lf, &elen);
   int before_dead = m_dead;
   if (mq_tail + elen > (int) sizeof mq) { aborted = 1; return; }
+  written_total += elen;
   memcpy (mq + mq_tail, ex, (size_t) elen); mq_tail += elen;      /* optimistic: the dropped tail is removed below */
   in_write = 1; blocked_len_max = -1;
   if (kind == 0 && len >= 8192) add_message (user_ob, mbuf);   /* receive() refuses strings of 8192 bytes and more: call add_message() as tell_object() would */
@@ -276,7 +286,7 @@ static int wait_hook (io_event_t *ev, int max, struct timeval *tmo) {
 }
 
 static void run_scenario (void) {
-  ph = 0; C = 0; aborted = 0; in_pre = 0; answers[0] = 0; run_devs = run_drops = run_wrap = 0;
+  ph = 0; C = 0; aborted = 0; in_pre = 0; answers[0] = 0; run_devs = run_drops = run_wrap = 0; run_sends = written_total = 0;
   gctr = 0;
   g_proceeding_shutdown = 0;
   MAIN_OPTION (console_mode) = 0;
